@@ -13,14 +13,22 @@
   Guards, explicit and decidable (the driver evaluates them on every generated case):
   `IdsOK L R` — the two lists consist of pairwise distinct nodes; `JobsOK L R (jobs …)` — the
   certain jobs pair no individual twice.  `jobsOK_of_guards` derives the latter from the inputs:
-  pointers unique per side (`PtrsOK`) and no two left individuals selecting the same right
-  individual through their unique identifiers (`UniqueTargetsOK`).
+  pointers unique per side (`PtrsOK`) and no right individual a unique-identifier candidate of
+  two left individuals (`CandidatesDisjoint`).
+
+  Two further sources of non-determinism / history are quantified over, not assumed away: the
+  resolution `ch` of every `ByUniqueIdentifiers(…)[0]` (sync.Map order) and the sent sets `s0`
+  an options value carries over from an earlier `Compare`.
 -/
 import Gedcom.Lemmas.MatchJobs
 namespace Gedcom.C11
 open Gedcom Gedcom.Match
 
 variable (L R : List Person) (scoreT scoreF : Nat → Nat → Rat) (prefer minW : Rat)
+/- `ch`: how the implementation resolved every choice `ByUniqueIdentifiers(…)[0]` (sync.Map
+   iteration order; any `Admissible` resolution); `s0`: the sent sets the options value carries
+   when `Compare` starts (empty when fresh, the leftovers of the previous call when reused). -/
+variable (ch : Person → Option Person) (s0 : Sent)
 
 /-
   Full statement (false of the code, defect 11): `each_right_once` without `JobsOK`.
@@ -30,42 +38,51 @@ variable (L R : List Person) (scoreT scoreF : Nat → Nat → Rat) (prefer minW 
 -/
 
 /-- every left individual appears in exactly one result, whatever the order of arrival -/
-theorem each_left_once (arrival : List Job) (hp : arrival.Perm (jobs L R scoreT scoreF prefer))
-    (hids : IdsOK L R) (hok : JobsOK L R (jobs L R scoreT scoreF prefer))
+theorem each_left_once (arrival : List Job) (hp : arrival.Perm (jobsFrom ch s0 L R scoreT scoreF prefer))
+    (hids : IdsOK L R) (hok : JobsOK L R (jobsFrom ch s0 L R scoreT scoreF prefer))
     (x : Nat) (hx : x ∈ L.map (·.id)) :
     leftCount x (winners L R minW arrival) = 1 :=
   left_once' L R minW arrival hids (jobsOK_perm hp hok) x hx
 
 /-- every right individual appears in exactly one result, whatever the order of arrival -/
-theorem each_right_once (arrival : List Job) (hp : arrival.Perm (jobs L R scoreT scoreF prefer))
-    (hids : IdsOK L R) (hok : JobsOK L R (jobs L R scoreT scoreF prefer))
+theorem each_right_once (arrival : List Job) (hp : arrival.Perm (jobsFrom ch s0 L R scoreT scoreF prefer))
+    (hids : IdsOK L R) (hok : JobsOK L R (jobsFrom ch s0 L R scoreT scoreF prefer))
     (x : Nat) (hx : x ∈ R.map (·.id)) :
     rightCount x (winners L R minW arrival) = 1 :=
   right_once' L R minW arrival hids (jobsOK_perm hp hok) x hx
 
-/-- the guard on the jobs follows from guards on the inputs: distinct nodes, pointers unique per
-    side, no two left individuals selecting the same right individual by unique identifier -/
-theorem jobsOK_of_guards (hids : IdsOK L R) (hp : PtrsOK L R) (hu : UniqueTargetsOK L R) :
+/-- the guard on the jobs follows from guards on the inputs — distinct nodes, pointers unique per
+    side, no right individual a unique-identifier candidate of two left individuals — for every
+    admissible resolution of the choices and every initial sent sets -/
+theorem jobsOK_of_guards (hadm : Admissible R ch) (hids : IdsOK L R) (hp : PtrsOK L R)
+    (hd : CandidatesDisjoint L R) : JobsOK L R (jobsFrom ch s0 L R scoreT scoreF prefer) :=
+  jobsOK_from L R scoreT scoreF prefer ch hadm.choiceOK s0 hids hp (choice_injective L R ch hadm hids hd)
+
+/-- for the resolution "identifiers in document order" (what the sequential model run uses) it
+    is enough that this one resolution selects no right individual twice -/
+theorem jobsOK_sequential (hids : IdsOK L R) (hp : PtrsOK L R) (hu : UniqueTargetsOK L R) :
     JobsOK L R (jobs L R scoreT scoreF prefer) :=
   jobsOK_of_guards' L R scoreT scoreF prefer hids hp hu
 
-/-- the matching is one-to-one on every schedule, stated on the inputs alone -/
-theorem valid_matching (arrival : List Job) (hperm : arrival.Perm (jobs L R scoreT scoreF prefer))
-    (hids : IdsOK L R) (hp : PtrsOK L R) (hu : UniqueTargetsOK L R) :
+/-- the matching is one-to-one on every schedule, for every resolution of the unique-identifier
+    choices and every history of the options value, stated on the inputs alone -/
+theorem valid_matching (arrival : List Job)
+    (hperm : arrival.Perm (jobsFrom ch s0 L R scoreT scoreF prefer)) (hadm : Admissible R ch)
+    (hids : IdsOK L R) (hp : PtrsOK L R) (hd : CandidatesDisjoint L R) :
     (∀ x ∈ L.map (·.id), leftCount x (winners L R minW arrival) = 1) ∧
     (∀ x ∈ R.map (·.id), rightCount x (winners L R minW arrival) = 1) :=
-  ⟨fun x hx => each_left_once L R scoreT scoreF prefer minW arrival hperm hids
-      (jobsOK_of_guards L R scoreT scoreF prefer hids hp hu) x hx,
-   fun x hx => each_right_once L R scoreT scoreF prefer minW arrival hperm hids
-      (jobsOK_of_guards L R scoreT scoreF prefer hids hp hu) x hx⟩
+  ⟨fun x hx => each_left_once L R scoreT scoreF prefer minW ch s0 arrival hperm hids
+      (jobsOK_of_guards L R scoreT scoreF prefer ch s0 hadm hids hp hd) x hx,
+   fun x hx => each_right_once L R scoreT scoreF prefer minW ch s0 arrival hperm hids
+      (jobsOK_of_guards L R scoreT scoreF prefer ch s0 hadm hids hp hd) x hx⟩
 
 /-- no result is empty on both sides, and no result mentions a node of neither list (needs no
     guard) -/
-theorem no_empty_result (arrival : List Job) (hp : arrival.Perm (jobs L R scoreT scoreF prefer))
-    (r : Res) (hr : r ∈ winners L R minW arrival) :
+theorem no_empty_result (arrival : List Job) (hp : arrival.Perm (jobsFrom ch s0 L R scoreT scoreF prefer))
+    (hadm : Admissible R ch) (r : Res) (hr : r ∈ winners L R minW arrival) :
     r ≠ (none, none) ∧ (∀ x, r.1 = some x → x ∈ L.map (·.id)) ∧ (∀ y, r.2 = some y → y ∈ R.map (·.id)) := by
   rcases winners_cases hr with ⟨j, hj, e, _⟩ | ⟨p, hpL, e⟩ | ⟨p, hpR, e⟩
-  · obtain ⟨a, ha, b, hb, el, er, _⟩ := jobs_justified' L R scoreT scoreF prefer j (hp.mem_iff.mp hj)
+  · obtain ⟨a, ha, b, hb, el, er, _⟩ := jobsFrom_justified L R scoreT scoreF prefer ch hadm.choiceOK s0 j (hp.mem_iff.mp hj)
     subst e
     refine ⟨by simp, ?_, ?_⟩
     · intro x hx; simp only [Option.some.injEq] at hx; rw [← hx, el]; exact List.mem_map.mpr ⟨a, ha, rfl⟩
@@ -80,12 +97,12 @@ theorem no_empty_result (arrival : List Job) (hp : arrival.Perm (jobs L R scoreT
 /-- paired individuals share a unique identifier, or have the same pointer and a (forced) score of
     at least `PreferPointerAbove`, or reach `MinimumWeightedSimilarity` (needs no guard) -/
 theorem paired_reach_threshold_or_certain (arrival : List Job)
-    (hp : arrival.Perm (jobs L R scoreT scoreF prefer)) (x y : Nat)
+    (hp : arrival.Perm (jobsFrom ch s0 L R scoreT scoreF prefer)) (hadm : Admissible R ch) (x y : Nat)
     (hr : (some x, some y) ∈ winners L R minW arrival) :
     ∃ a ∈ L, ∃ b ∈ R, x = a.id ∧ y = b.id ∧
       (SharesUid a b ∨ (a.ptr = b.ptr ∧ prefer ≤ scoreT a.id b.id) ∨ minW ≤ scoreF a.id b.id) := by
   rcases winners_cases hr with ⟨j, hj, e, hc⟩ | ⟨p, _, e⟩ | ⟨p, _, e⟩
-  · obtain ⟨a, ha, b, hb, el, er, hjust⟩ := jobs_justified' L R scoreT scoreF prefer j (hp.mem_iff.mp hj)
+  · obtain ⟨a, ha, b, hb, el, er, hjust⟩ := jobsFrom_justified L R scoreT scoreF prefer ch hadm.choiceOK s0 j (hp.mem_iff.mp hj)
     simp only [Prod.mk.injEq, Option.some.injEq] at e
     refine ⟨a, ha, b, hb, by rw [e.1, el], by rw [e.2, er], ?_⟩
     rcases hjust with ⟨_, h | h⟩ | ⟨hf, hs⟩
@@ -100,15 +117,17 @@ theorem paired_reach_threshold_or_certain (arrival : List Job)
 /-- when no two candidate pairs (uncertain results at or above the threshold) tie on score, every
     order of arrival gives the result of the sequential run, up to the order in which the results
     are listed; ties below the threshold (e.g. the pairs the early exit scores 0) are harmless -/
-theorem schedule_independent (arrival : List Job) (hp : arrival.Perm (jobs L R scoreT scoreF prefer))
-    (hn : NoScoreTies minW (jobs L R scoreT scoreF prefer)) :
-    (winners L R minW arrival).Perm (compare L R scoreT scoreF prefer minW) :=
+theorem schedule_independent (arrival : List Job) (hp : arrival.Perm (jobsFrom ch s0 L R scoreT scoreF prefer))
+    (hn : NoScoreTies minW (jobsFrom ch s0 L R scoreT scoreF prefer)) :
+    (winners L R minW arrival).Perm (winners L R minW (jobsFrom ch s0 L R scoreT scoreF prefer)) :=
   winners_perm L R minW hp hn
 
 /-- the jobs themselves are what the property says they are (any job list the pipeline can see is
     a permutation of this one) -/
-theorem jobs_justified (j : Job) (hj : j ∈ jobs L R scoreT scoreF prefer) :
-    Justified L R scoreT scoreF prefer j := jobs_justified' L R scoreT scoreF prefer j hj
+theorem jobs_justified (hadm : Admissible R ch) (j : Job)
+    (hj : j ∈ jobsFrom ch s0 L R scoreT scoreF prefer) :
+    Justified L R scoreT scoreF prefer j :=
+  jobsFrom_justified L R scoreT scoreF prefer ch hadm.choiceOK s0 j hj
 
 /-! ## the guard cannot be dropped (defect 11) -/
 
@@ -118,7 +137,7 @@ def dupR : List Person := [⟨10, [80, 49], [[1]]⟩]
 /-- two left individuals with the unique identifier of one right individual: the right
     individual is in two results, in the sequential run already -/
 theorem dup_uid_counterexample :
-    IdsOK dupL dupR ∧ PtrsOK dupL dupR ∧ ¬ UniqueTargetsOK dupL dupR ∧
+    IdsOK dupL dupR ∧ PtrsOK dupL dupR ∧ ¬ UniqueTargetsOK dupL dupR ∧ ¬ CandidatesDisjoint dupL dupR ∧
     ¬ JobsOK dupL dupR (jobs dupL dupR (fun _ _ => 0) (fun _ _ => 0) 0) ∧
     rightCount 10 (compare dupL dupR (fun _ _ => 0) (fun _ _ => 0) 0 0) = 2 := by
   decide +kernel
@@ -131,7 +150,7 @@ def exF : Nat → Nat → Rat := fun l r => if l = 2 ∧ r = 10 then 9 / 10 else
 
 -- one unique-id job (0-12), one pointer job (1-11), a remaining matrix with a winner (2-10):
 -- the guards hold and there are jobs of all three kinds
-example : IdsOK exL exR ∧ PtrsOK exL exR ∧ UniqueTargetsOK exL exR ∧
+example : IdsOK exL exR ∧ PtrsOK exL exR ∧ UniqueTargetsOK exL exR ∧ CandidatesDisjoint exL exR ∧
     JobsOK exL exR (jobs exL exR (fun _ _ => 1) exF (1 / 2)) := by decide +kernel
 example : compare exL exR (fun _ _ => 1) exF (1 / 2) (1 / 2) =
     [(some 0, some 12), (some 1, some 11), (some 2, some 10), (none, some 13)] := by decide +kernel
@@ -140,5 +159,21 @@ example : NoScoreTies (1 / 2) [⟨2, 10, false, 9 / 10⟩, ⟨2, 13, false, 8 / 
     ⟨0, 12, true, 0⟩, ⟨1, 11, true, 0⟩] := by
   decide +kernel
 example : NoScoreTies (1 / 2) (jobs exL exR (fun _ _ => 1) exF (1 / 2)) := by decide +kernel
+
+-- an ambiguous choice: left 0 carries two identifiers that select right 12 and right 13; the guards
+-- hold, and both resolutions give a valid matching (0-12 resp. 0-13)
+def amL : List Person := [⟨0, [73, 49], [[1], [2]]⟩, ⟨1, [73, 50], []⟩]
+def amR : List Person := [⟨12, [80, 51], [[1]]⟩, ⟨13, [80, 52], [[2]]⟩]
+example : IdsOK amL amR ∧ PtrsOK amL amR ∧ CandidatesDisjoint amL amR ∧
+    (uniqueCands amR amL[0]).map (·.id) = [12, 13] := by decide +kernel
+example : winners amL amR 1 (jobsFrom (fun a => if a.id = 0 then some amR[1] else none) ⟨[], []⟩ amL amR
+      (fun _ _ => 0) (fun _ _ => 0) 1) = [(some 0, some 13), (some 1, none), (none, some 12)] := by
+  decide +kernel
+-- a second Compare with the same options value: the pointer pair 1-11 of the first call is not
+-- found again (both pointers are still marked as sent), the result is still a valid matching
+example : winners exL exR (1 / 2) (jobsFrom (uniqueTarget exR)
+      (sentAfter (uniqueTarget exR) ⟨[], []⟩ exL exR (fun _ _ => 1) (1 / 2)) exL exR (fun _ _ => 1) exF (1 / 2)) =
+    [(some 0, some 12), (some 2, some 10), (some 1, none), (none, some 11), (none, some 13)] := by
+  decide +kernel
 
 end Gedcom.C11
